@@ -3,10 +3,13 @@
 From Coq Require Import List NArith Bool.
 From RPFT Require Import Base.Sexp Base.PyStr Gen.Tables Cell.Cell Cell.CellFacts.
 Import ListNotations.
+Local Open Scope N_scope.
 
-(* 1. every string survives join + split, trimmed *)
+(* 1. every string survives join + split, trimmed.
+   str_ok s = "s does not contain the temporary character of cleanse, IF cleanse has one"
+   (cleanse_tmp, regenerated from the code): constantly true on the repaired tree, see 6. *)
 Theorem C08_string_roundtrip : forall s,
-  mem_char tmp_char s = false ->
+  str_ok s = true ->
   join_from_lists 0 (Str s) = Some (escape s) /\ split_into_lists (escape s) = Str (strip s).
 Proof. exact string_roundtrip. Qed.
 Print Assumptions C08_string_roundtrip.
@@ -47,7 +50,43 @@ Theorem C08_tables_ok : cell_tables_ok = true.
 Proof. exact cell_tables_ok_true. Qed.
 Print Assumptions C08_tables_ok.
 
-(* 6. the full statement ("every string") is false of the faithful model: U+0001 *)
-Theorem C08_tmp_char_refuted : cleanse_str (escape [tmp_char]) <> strip [tmp_char].
-Proof. exact tmp_char_refuted. Qed.
-Print Assumptions C08_tmp_char_refuted.
+(* 6. the statement at FULL strength (every string; every list of the property's shape, no condition
+   on the strings), decided for the code of this run: it HOLDS when cleanse has no temporary character
+   (the tree with the one-pass un-escape), it is REFUTED by the string [t] when cleanse parks escaped
+   backslashes in a character t (the defect "value-contains-U+0001" of the three-replace cleanse). *)
+Theorem C08_full_roundtrip_decided :
+  match cleanse_tmp with
+  | None => string_roundtrip_full /\ list_roundtrip_full
+  | Some t => ~ string_roundtrip_full
+  end.
+Proof. exact full_roundtrip_decided. Qed.
+Print Assumptions C08_full_roundtrip_decided.
+
+(* 7. the one-pass un-escape inverts escape on every string ... *)
+Theorem C08_unescape_escape : forall s, unescape (escape s) = s.
+Proof. exact unescape_escape. Qed.
+Print Assumptions C08_unescape_escape.
+
+(* ... and computes what the three-replace un-escape through ANY temporary character t computes, on
+   every string that does not contain t: the repair changes no other behaviour *)
+Theorem C08_phases_one_pass : forall t, tmp_ok t = true ->
+  forall s, mem_char t s = false -> unescape_phases t s = unescape s.
+Proof. exact phases_one_pass. Qed.
+Print Assumptions C08_phases_one_pass.
+
+Example C08_phases_one_pass_nonvacuous :
+  tmp_ok 1 = true /\ mem_char 1 [92; 92; 92; 124; 97; 92; 59; 92] = false
+  /\ unescape [92; 92; 92; 124; 97; 92; 59; 92] = [92; 124; 97; 59; 92].
+Proof. exact phases_one_pass_example. Qed.
+Print Assumptions C08_phases_one_pass_nonvacuous.
+
+(* the value of the finding and a list holding it, computed *)
+Example C08_u0001_roundtrip :
+  let v := Lst [Str [1]; Lst [Str [92; 1; 124]; Str [1; 1]]] in
+  match cleanse_tmp with
+  | None => split_into_lists (escape [1]) = Str [1]
+            /\ match join_from_lists 0 v with Some t => split_into_lists t = v | None => False end
+  | Some t => split_into_lists (escape [t]) = Str [esc_char]
+  end.
+Proof. exact u0001_roundtrip. Qed.
+Print Assumptions C08_u0001_roundtrip.
